@@ -245,7 +245,7 @@ func (fr *frame) builtin(name string, c *ssa.CallCommon, args []*Val, rt types.T
 			}
 		}
 		r := ft.freshVal("len", rt)
-		ft.c.Assume(r.L[0], app(SBool, "bvule", r.L[0], idxInt(maxLen)))
+		ft.c.Assume(r.L[0], uLe(r.L[0], idxInt(maxLen)))
 		return r
 	case "cap":
 		a := args[0]
@@ -253,7 +253,7 @@ func (fr *frame) builtin(name string, c *ssa.CallCommon, args []*Val, rt types.T
 			return &Val{T: rt, L: []Term{a.sCap()}}
 		}
 		r := ft.freshVal("cap", rt)
-		ft.c.Assume(r.L[0], app(SBool, "bvule", r.L[0], idxInt(maxLen)))
+		ft.c.Assume(r.L[0], uLe(r.L[0], idxInt(maxLen)))
 		return r
 	case "append":
 		return fr.appendOp(c, args, rt, pos)
@@ -296,6 +296,12 @@ func (fr *frame) builtin(name string, c *ssa.CallCommon, args []*Val, rt types.T
 
 // litInt returns the value of a bit-vector literal term.
 func litInt(t Term) (int64, bool) {
+	if t.S == SInt {
+		if v, ok := intLitVal(t); ok && v.IsInt64() {
+			return v.Int64(), true
+		}
+		return 0, false
+	}
 	var v int64
 	var w int
 	if n, err := fmt.Sscanf(t.T, "(_ bv%d %d)", &v, &w); err == nil && n == 2 {
@@ -387,8 +393,10 @@ func (fr *frame) copyOp(c *ssa.CallCommon, args []*Val, rt types.Type, pos token
 			na := ft.c.Fresh("copyarr", lc.leaf)
 			k := ft.c.BoundVar("k")
 			// memmove semantics: source read from the pre-state
-			ft.c.Assume(na, ft.c.Quant(false, k, SIdx, Term{SBool, fmt.Sprintf("(= (select %s %s) (ite (and (bvule %s %s) (bvult %s (bvadd %s %s))) (select %s (bvadd %s (bvsub %s %s))) (select %s %s)))",
-				na.T, k, dst.sOff().T, k, k, dst.sOff().T, n.T, sarr.T, soff.T, k, dst.sOff().T, darr.T, k)}))
+			kt := Term{SIdx, k}
+			inr := mkAnd(app(SBool, "bvule", dst.sOff(), kt), app(SBool, "bvult", kt, app(SIdx, "bvadd", dst.sOff(), n)))
+			ft.c.Assume(na, ft.c.Quant(false, k, SIdx, mkEq(mkSelect(na, kt),
+				mkIte(inr, mkSelect(sarr, app(SIdx, "bvadd", soff, app(SIdx, "bvsub", kt, dst.sOff()))), mkSelect(darr, kt)))))
 			narr = na
 		}
 		fr.cur.mem.m[lc.name] = ft.c.Define("m$"+lc.name, mkStore(darrAll, dbk.Ref, narr))
@@ -469,8 +477,10 @@ func (fr *frame) appendOp(c *ssa.CallCommon, args []*Val, rt types.Type, pos tok
 		} else {
 			na := ft.c.Fresh("apparr", lc.leaf)
 			k := ft.c.BoundVar("k")
-			ft.c.Assume(na, ft.c.Quant(false, k, SIdx, Term{SBool, fmt.Sprintf("(= (select %s %s) (ite (and (bvule %s %s) (bvult %s (bvadd %s %s))) (select %s (bvadd %s (bvsub %s %s))) (select %s %s)))",
-				na.T, k, base.T, k, k, base.T, tLen.T, tarr.T, tOff.T, k, base.T, sarr.T, k)}))
+			kt := Term{SIdx, k}
+			inr := mkAnd(app(SBool, "bvule", base, kt), app(SBool, "bvult", kt, app(SIdx, "bvadd", base, tLen)))
+			ft.c.Assume(na, ft.c.Quant(false, k, SIdx, mkEq(mkSelect(na, kt),
+				mkIte(inr, mkSelect(tarr, app(SIdx, "bvadd", tOff, app(SIdx, "bvsub", kt, base))), mkSelect(sarr, kt)))))
 			narr = na
 		}
 		narr = ft.c.Define("apparrv", narr)
